@@ -192,6 +192,21 @@ class SMap:
         self.has, self.val, self.size, self.kt, self.vt = has, val, size, kt, vt
 
 
+def merge_maps(a: 'SMap', b: 'SMap', st=None) -> 'SMap':
+    """(C23) `{**a, **b}` / `a.update(b)` on finite maps with the same key and value types: b's entries win.  The cardinality of
+    the union is a fresh integer between max(|a|, |b|) and |a| + |b|, tied to the key set by the usual well-formedness facts
+    (assumed on `st` when given; without a state the size is merely unconstrained, which over-approximates)"""
+    k = z3.Const(fresh_name('mk'), sort_of(a.kt))
+    has = z3.Lambda([k], z3.Or(z3.Select(a.has, k), z3.Select(b.has, k)))
+    val = z3.Lambda([k], z3.If(z3.Select(b.has, k), z3.Select(b.val, k), z3.Select(a.val, k)))
+    m = SMap(has, val, z3.Int(fresh_name('merged.size')), a.kt, a.vt)
+    if st is not None:
+        for w in wf_constraints(m):
+            st.assume(w)
+        st.assume(z3.And(m.size >= a.size, m.size >= b.size, m.size <= a.size + b.size))
+    return m
+
+
 class SDotted:
     """an unresolved dotted name (module attribute, class, enum member...)"""
 
@@ -1896,6 +1911,9 @@ class Engine:
             for fact in s2.pc[n0:]:
                 st.assume(z3.Implies(g, fact))
         a, b = outs
+        if (isinstance(a, (SMap, SRecord, SDict)) or isinstance(b, (SMap, SRecord, SDict))) and not getattr(self, 'in_spec', False):
+            # (C23) branches that are maps / records have no single term to merge into: split the path on the condition
+            raise Fork(node, [('ifexp-then', c, 'ifexp', True), ('ifexp-else', z3.Not(c), 'ifexp', False)])
         ta = type_of_value(a)
         tb = type_of_value(b)
         t = ta if ta == tb else ('real' if {ta, tb} <= {'int', 'real'} else ('int' if {ta, tb} <= {'int', 'bool'} else None))
@@ -2579,6 +2597,15 @@ class Engine:
         return hook(self, st, [], {}, node)
 
     def ev_Dict(self, node, st):
+        if node.keys and all(k is None for k in node.keys):
+            # (C23) `{**a, **b}`: the union of finite maps, later operands win; anything else stays outside the subset
+            parts = [self.ev(v, st) for v in node.values]
+            if all(isinstance(x, SMap) for x in parts) and len({(type_key(x.kt), type_key(x.vt)) for x in parts}) == 1:
+                out = parts[0]
+                for x in parts[1:]:
+                    out = merge_maps(out, x, st)
+                return out
+            raise Undecided('dict display spreading non-map values')
         if not all(isinstance(k, ast.Constant) and isinstance(k.value, str) for k in node.keys):
             raise Undecided('dict display with non-literal keys')
         r = SRecord('dict', {k.value: self.ev(v, st) for k, v in zip(node.keys, node.values)})
